@@ -148,7 +148,15 @@ impl fmt::Display for KNumber {
 
 impl Hash for KNumber {
     fn hash<H: Hasher>(&self, state: &mut H) {
-        state.write_u64(self.to_bits())
+        // Numbers that compare as equal need to have matching hashes.
+        // Integers are compared with floats by converting them to f64 (see PartialEq),
+        // and -0.0 is equal to 0.0, so hash the normalized f64 representation.
+        let n = match *self {
+            Self::F64(n) => n,
+            Self::I64(n) => n as f64,
+        };
+        let n = if n == 0.0 { 0.0 } else { n };
+        state.write_u64(n.to_bits())
     }
 }
 
